@@ -52,6 +52,8 @@ Step ==
           [] e.ev = "Attempt" ->
                /\ att' = att + 1 /\ lastres' = e.res /\ pend' = "policy"
                /\ bad' = (IF e.n = att + 1 /\ e.same /\ e.req = 77 THEN bad ELSE bad \cup {"attempt out of order or with a different request"})
+                         \cup (IF e.dlsame THEN {} ELSE {"an attempt was issued with another deadline than the caller's"})
+                         \cup (IF e.trsame THEN {} ELSE {"an attempt was issued with another trace context than the caller's"})
                          \cup (IF pend \in {"none", "attempt"} THEN {} ELSE {"attempt although the policy was not consulted / declined"})
                /\ UNCHANGED <<kind, n, seqs, hmap>>
           [] e.ev = "Policy" ->
@@ -70,5 +72,8 @@ Step ==
 TSpec == TInit /\ [][Step]_tvars
 Report(name, ok) == ok \/ PrintT(<<"REPORT", name, scn, l - 1, {}>>)
 Verdict_C20 == Report("Inv_C20", bad = {})
+(* C07 / C18 through the retry stub: a re-issued request carries the caller's deadline / trace context *)
+Verdict_C07 == Report("Inv_C07retry", "an attempt was issued with another deadline than the caller's" \notin bad)
+Verdict_C18 == Report("Inv_C18retry", "an attempt was issued with another trace context than the caller's" \notin bad)
 Accepted == l = Len(Rec) + 1 => PrintT(<<"ACCEPTED", Len(Rec)>>)
 =============================================================================
